@@ -11,15 +11,17 @@ from vlib.vloop import ScriptedPeer, VLoop, World
 LEVEL = "exploration"
 RULE = ("case = (transport in {RTU/UDP, Modbus/TCP, AA55/UDP}, keep-alive, timeout, retries, 2..4 callers with start offsets on "
         "a T/16 grid reading distinct registers with the same count, per-transmission fault in {drop, prompt answer, delayed "
-        "in-time answer, two in-time fragments}, connect latency). The harness owns the schedule (single-threaded asyncio: "
+        "in-time answer, two in-time fragments}, connect latency, protocol object or inverter object after 0..6 completely failed "
+        "requests). The harness owns the schedule (single-threaded asyncio: "
         "offsets + delays + latency determine the interleaving). All 2-caller schedules over a 5-point offset grid and "
         "scripts of depth 3 are enumerated; 3-4 callers and free delays are sampled by Hypothesis. Non-trivial = at least two "
         "callers overlapped (one had to wait for the lock) and at least one transmission was dropped or fragmented; distinct "
         "by the whole case.")
 ASSUMPTIONS = [
     "precondition of the property holds by construction: every transmission is answered at most once and strictly before its timeout",
-    "a transmission counts as 'waiting for its answer' from its send time until its complete answer was delivered, its "
-    "timeout elapsed, or the transport it was sent on was closed by the library",
+    "a transmission counts as 'waiting for its answer' from its send time until its complete answer was delivered or its "
+    "timeout elapsed (the library closing the socket under a waiting transmission does not end the wait: within this fault "
+    "domain it never has a reason to)",
     "vlib/vloop.py models the asyncio callback contract",
 ]
 EPS = 1e-9
@@ -44,10 +46,19 @@ def run_case(acc: Acc, case):
     offsets = case["offsets"]
     n = len(offsets)
     responder = netcase.make_responder(transport, aa_payload if transport == "aa55" else tag_payload)
-    peer = ScriptedPeer(responder, netcase.to_actions(case["script"], T), default=tuple(netcase.to_actions([case.get("default", ["answer", 1])], T)[0]))
+    streak = case.get("streak", 0) if case.get("api") else 0
+    peer = ScriptedPeer(responder, [("drop",)] * (streak * (R + 1)) + netcase.to_actions(case["script"], T), default=tuple(netcase.to_actions([case.get("default", ["answer", 1])], T)[0]))
     world = World(peer, connect_latency=case.get("latency", 0))
     loop = VLoop(world, max_time=1e5)
-    protocol = netcase.make_protocol(transport, T, R, case["keep"])
+    inv = None
+    if case.get("api"):
+        # through an inverter object (the single funnel all public calls use), optionally after a streak of failed requests
+        from vlib import siminv
+        inv = siminv.make_inverter("ES" if transport == "aa55" else "ET", transport == "tcp", T, R)
+        protocol = inv._protocol
+        protocol.keep_alive = case["keep"]
+    else:
+        protocol = netcase.make_protocol(transport, T, R, case["keep"])
     regs = [35100 + 10 * i for i in range(n)]
     if transport == "aa55":
         from goodwe.protocol import Aa55ProtocolCommand
@@ -62,7 +73,7 @@ def run_case(acc: Acc, case):
         await asyncio.sleep(netcase.secs(offsets[i], T))
         t_call = loop.vtime
         try:
-            res = await cmds[i].execute(protocol)
+            res = await (inv._read_from_socket(cmds[i]) if inv is not None else cmds[i].execute(protocol))
             return ("ok", res, t_call, loop.vtime)
         except asyncio.CancelledError as ex:
             return ("CancelledError", ex, t_call, loop.vtime)
@@ -70,6 +81,11 @@ def run_case(acc: Acc, case):
             return (type(ex).__name__, ex, t_call, loop.vtime)
 
     async def main():
+        for _ in range(streak):    # earlier requests on the same object that failed completely (silent inverter)
+            try:
+                await inv._read_from_socket(cmds[0])
+            except Exception:
+                pass
         return await asyncio.gather(*[caller(i) for i in range(n)])
 
     out = loop.run(main())
@@ -102,10 +118,6 @@ def run_case(acc: Acc, case):
             fails.append(("C06|%s|outcome-type|%s" % (cfg, kind), "caller %d ended with %r" % (i, val), case))
     # -- (1) serialisation ---------------------------------------------------------------------------------------
     tx = world.tx
-    closes = {}
-    for t, what, tid in world.events:
-        if what in ("close", "force"):
-            closes.setdefault(tid, t)
     for idx, (t, tid, data, failed) in enumerate(tx):
         if failed:
             continue
@@ -115,8 +127,6 @@ def run_case(acc: Acc, case):
             full_at = max(dt for dt, _ in pieces)
             if all(ok for (dt, dtid, didx, d, ok, fl) in world.deliveries if didx == idx):
                 end = min(end, full_at)
-        if tid in closes:
-            end = min(end, closes[tid])
         for jdx in range(idx + 1, len(tx)):
             t2 = tx[jdx][0]
             if t2 < end - EPS:
@@ -129,7 +139,7 @@ def run_case(acc: Acc, case):
             break
     dropped_or_frag = any(a[0] in ("drop", "frag") for _, a in peer.history)
     if overlapped and dropped_or_frag:
-        acc.nontrivial(transport, case["keep"], T, R, tuple(offsets), repr(case["script"]), case.get("latency", 0))
+        acc.nontrivial(transport, case["keep"], T, R, tuple(offsets), repr(case["script"]), case.get("latency", 0), case.get("api"), streak)
     acc.cls("overlapping-callers" if overlapped else "sequential-callers")
     if errors:
         acc.cls("loop-callback-exceptions(C09)")
@@ -154,6 +164,12 @@ def enum_job(job):
             _apply(acc, case)
             if len(acc.samples) < 1 and script[0][0] == "drop" and o2 == 8:
                 acc.sample(case)
+    if latency == 0:   # the same through an inverter object after 0..4 completely failed requests
+        for streak in (0, 1, 3, 4):
+            for o2 in (0, 1, 8, 17):
+                for script in itertools.product(ACTIONS, repeat=2):
+                    _apply(acc, {"transport": transport, "keep": keep, "T": T, "R": R, "latency": 0, "offsets": [0, o2],
+                                 "script": [list(a) for a in script], "api": True, "streak": streak})
     return acc
 
 
@@ -174,7 +190,8 @@ def hyp_job(job):
         return {"transport": transport, "keep": draw(st.booleans()), "T": draw(st.sampled_from((0.5, 1.0, 2.0))),
                 "R": draw(st.integers(1, 3)), "latency": draw(st.integers(0, 3)),
                 "offsets": draw(st.lists(st.integers(0, 40), min_size=n, max_size=n)),
-                "script": draw(st.lists(act(transport), max_size=10))}
+                "script": draw(st.lists(act(transport), max_size=10)),
+                "api": draw(st.booleans()), "streak": draw(st.sampled_from((0, 0, 1, 2, 3, 4, 6)))}
 
     def body(case):
         if len(acc.samples) < 3:
